@@ -181,7 +181,41 @@ func (s *Sched) yield(self *G) {
 // preemptPoint: with schedule exploration on, every synchronisation operation is a point where
 // another runnable goroutine may be chosen to continue instead (forked).
 func (s *Sched) preemptPoint() {
-	if !s.r.allSchedules || s.cur == nil {
+	if s.cur == nil {
+		return
+	}
+	if !s.r.allSchedules && s.r.schedBudget > 0 {
+		// delay-bounded mode: continuing is free, handing over to another runnable goroutine at this
+		// lock operation costs one unit
+		var others []*G
+		for _, g := range s.gs {
+			if g.state == gRunnable && g != s.cur {
+				others = append(others, g)
+			}
+		}
+		if len(others) == 0 {
+			return
+		}
+		c := s.r.chooseN(len(others) + 1)
+		if c == 0 {
+			return
+		}
+		s.r.schedBudget--
+		s.r.schedForks++
+		s.r.selectForks++
+		self := s.cur
+		self.state = gRunnable
+		next := others[c-1]
+		s.cur = next
+		next.resume <- struct{}{}
+		<-self.resume
+		if s.aborted {
+			panic(abortRun{})
+		}
+		s.cur = self
+		return
+	}
+	if !s.r.allSchedules {
 		return
 	}
 	n := 0
